@@ -386,7 +386,7 @@ pub unsafe fn s_fut_drop_recv<RW: QueueRW<Pay>>(n: usize, k: usize, mpmc: bool, 
     let lv1 = w.q.tail.vf_view();
     assert!(lv1.k == if last { a0.k - 1 } else { a0.k }, "C11: the stream leaves the list exactly when its last handle goes");
     assert!((w.q.manager.vf_signal_bits() & 2 != 0) == (last && a0.k == 1), "C13: the no-reader flag is raised exactly when the last stream is removed");
-    assert!(notified_after_change(1), "C13/C14: dropping a futures receiver notifies the producer wait list (after the consumer left)");
+    assert!(notified_after_change(1), "C11/C13/C14: dropping a futures receiver notifies the producer wait list (after the consumer left)");
     mem::forget(w);
 }
 
@@ -561,14 +561,14 @@ pub unsafe fn s_fut_uni_convert<RW: QueueRW<Pay>>(n: usize, k: usize, into_multi
     let prod_addr = &prod.inner as *const FutWait as usize;
     if into_multi {
         let r = u.into_multi();
-        assert!(r.reader.reader.vf_pos() == a0.pos[i] && r.reader.reader.vf_consumers() == 1, "C01/C03/C10: the converted receiver continues at the same position");
+        assert!(r.reader.reader.vf_pos() == a0.pos[i] && r.reader.reader.vf_consumers() == 1, "C01/C02/C03/C10: the converted receiver continues at the same position");
         assert!(&*r.wait as *const FutWait as usize == cons_addr && &*r.prod_wait as *const FutWait as usize == prod_addr, "C14/C15: the converted receiver keeps the consumer and producer wait lists in their roles");
         let lv1 = w.q.tail.vf_view();
         assert!(lv1.k == a0.k, "C11: into_multi replaces the stream (one added, the old one removed)");
         mem::forget(r);
     } else {
         let r = u.add_stream_with(view_fn as fn(&Pay) -> usize);
-        assert!(r.reader.reader.vf_pos() == a0.pos[i] && r.reader.reader.vf_consumers() == 1, "C01/C03/C10: the new stream starts at the parent's position");
+        assert!(r.reader.reader.vf_pos() == a0.pos[i] && r.reader.reader.vf_consumers() == 1, "C01/C02/C03/C10: the new stream starts at the parent's position");
         assert!(&*r.wait as *const FutWait as usize == cons_addr && &*r.prod_wait as *const FutWait as usize == prod_addr, "C14/C15: the new receiver keeps the consumer and producer wait lists in their roles");
         let lv1 = w.q.tail.vf_view();
         assert!(lv1.k == a0.k + 1, "C10: exactly one stream is added");
